@@ -165,6 +165,52 @@ func buildK(name string, variant byte) *kContract {
 				patch{endtry1 + 1, byte(endPos - endtry1)},
 				patch{endtry2 + 1, byte(endPos - endtry2)})
 		}},
+		{"nestTry", 6, smartcontract.VoidType, func(b *io.BufBinWriter) {
+			// try { try { call(a0,a1,a2) } catch { call(a3,a4,a5) } } catch { }  -- two handlers in one frame,
+			// the second call is made from inside the inner catch block
+			w := b.BinWriter
+			emit.InitSlot(w, 1, 6)
+			outerTry := b.Len()
+			emit.Instruction(w, opcode.TRY, []byte{0, 0})
+			innerTry := b.Len()
+			emit.Instruction(w, opcode.TRY, []byte{0, 0})
+			emit.Opcodes(w, opcode.LDARG2, opcode.PUSH15, opcode.LDARG1, opcode.LDARG0)
+			sys(w, interopnames.SystemContractCall)
+			emit.Opcodes(w, opcode.DROP)
+			emit.String(w, "inner-ok")
+			emit.Opcodes(w, opcode.STLOC0)
+			innerEnd1 := b.Len()
+			emit.Instruction(w, opcode.ENDTRY, []byte{0})
+			innerCatch := b.Len()
+			emit.Opcodes(w, opcode.DROP)
+			emit.Opcodes(w, opcode.LDARG5, opcode.PUSH15, opcode.LDARG4, opcode.LDARG3)
+			sys(w, interopnames.SystemContractCall)
+			emit.Opcodes(w, opcode.DROP)
+			emit.String(w, "inner-caught")
+			emit.Opcodes(w, opcode.STLOC0)
+			innerEnd2 := b.Len()
+			emit.Instruction(w, opcode.ENDTRY, []byte{0})
+			afterInner := b.Len()
+			outerEnd1 := b.Len()
+			emit.Instruction(w, opcode.ENDTRY, []byte{0})
+			outerCatch := b.Len()
+			emit.Opcodes(w, opcode.DROP)
+			emit.String(w, "outer-caught")
+			emit.Opcodes(w, opcode.STLOC0)
+			outerEnd2 := b.Len()
+			emit.Instruction(w, opcode.ENDTRY, []byte{0})
+			endPos := b.Len()
+			emit.Opcodes(w, opcode.LDLOC0)
+			notifyTop(w)
+			emit.Opcodes(w, opcode.RET)
+			patches = append(patches,
+				patch{outerTry + 1, byte(outerCatch - outerTry)},
+				patch{innerTry + 1, byte(innerCatch - innerTry)},
+				patch{innerEnd1 + 1, byte(afterInner - innerEnd1)},
+				patch{innerEnd2 + 1, byte(afterInner - innerEnd2)},
+				patch{outerEnd1 + 1, byte(endPos - outerEnd1)},
+				patch{outerEnd2 + 1, byte(endPos - outerEnd2)})
+		}},
 		{"seq", 1, smartcontract.VoidType, func(b *io.BufBinWriter) {
 			w := b.BinWriter
 			emit.InitSlot(w, 2, 1)
